@@ -23,6 +23,9 @@ pub struct DocSpec {
     pub comment: bool,
     /// uses an alias whose anchor is defined in an earlier document of the history
     pub alias_of_earlier: bool,
+    /// no `---` before this document (only honoured when the previous document ended with `...`)
+    #[serde(default)]
+    pub implicit_start: bool,
 }
 
 #[derive(Clone, Debug, Serialize, Deserialize)]
@@ -38,7 +41,8 @@ pub struct StreamCase {
 pub fn build_stream(c: &StreamCase) -> String {
     let mut s = String::new();
     for (i, d) in c.docs.iter().enumerate() {
-        if i > 0 || c.start_marker {
+        let implicit = i > 0 && d.implicit_start && c.docs[i - 1].end_marker && !d.text.is_empty();
+        if (i > 0 || c.start_marker) && !implicit {
             s.push_str("---\n");
         }
         s.push_str(&d.text);
@@ -233,7 +237,18 @@ pub fn exec(c: &StreamCase, st: &mut Stats) -> Vec<Viol> {
         .filter(|(_, c)| !matches!(c, Class::Skipped))
         .map(|(i, _)| i)
         .collect();
-    if content_idx.len() >= 2 {
+    // A syntax error in what follows an explicit `...` end marker is documented as tolerated
+    // ("trailing garbage after a proper document end marker is ignored"): such streams are not asserted.
+    // (The document such an entry point deserializes is the first one of the stream, null-like or not.)
+    let tolerated_garbage = (0..c.docs.len().saturating_sub(1)).any(|i| {
+        c.docs[i].end_marker
+            && matches!(classes[i + 1], Class::Syntax)
+            && classes[..i].iter().all(|x| matches!(x, Class::Skipped))
+    });
+    if tolerated_garbage {
+        st.bump("single_entry.not_asserted_garbage_after_end_marker");
+    }
+    if content_idx.len() >= 2 && !tolerated_garbage {
         for e in [Entry::FromStr, Entry::FromReader, Entry::WdStr, Entry::WdReader] {
             let r = crate::with_target!(c.target, run_single(e, bytes, &c.opts, &ReaderScript::default()));
             st.evals += 1;
@@ -415,6 +430,7 @@ pub fn kinds_for(target: Target) -> Vec<DocSpec> {
         end_marker: false,
         comment: false,
         alias_of_earlier: false,
+        implicit_start: false,
     };
     let mut v = vec![
         d("empty", ""),
@@ -433,6 +449,7 @@ pub fn kinds_for(target: Target) -> Vec<DocSpec> {
             d("type-late", "name: a\nn: 1\nlist: [1, 2, {deep: [x, {y: z}]}]\n"),
             d("missing", "name: only\n"),
             d("type-scalar-root", "just a scalar\n"),
+            d("anchor-then-type-error", "name: &x ank\nn: notanumber\n"),
         ],
         Target::VecI => vec![
             d("valid-a", "- 1\n- 2\n"),
@@ -442,6 +459,7 @@ pub fn kinds_for(target: Target) -> Vec<DocSpec> {
             d("type-early", "- x\n- 2\n"),
             d("type-late", "- 1\n- 2\n- [deep, {a: b}]\n"),
             d("type-map-root", "a: 1\nb: [2, 3]\n"),
+            d("anchor-then-type-error", "- &x 7\n- oops\n"),
         ],
         Target::Tup => vec![
             d("valid-a", "[1, 2]\n"),
@@ -452,6 +470,7 @@ pub fn kinds_for(target: Target) -> Vec<DocSpec> {
             d("surplus-block", "- 1\n- 2\n- 3\n- [4]\n"),
             d("missing", "[1]\n"),
             d("type-early", "[x, 2]\n"),
+            d("anchor-then-type-error", "[&x 7, oops]\n"),
         ],
         Target::Map => vec![
             d("valid-a", "k1: v1\nk2: v2\n"),
@@ -461,6 +480,7 @@ pub fn kinds_for(target: Target) -> Vec<DocSpec> {
             d("type-early", "k: [1, 2]\n"),
             d("type-late", "a: b\nc: d\ne: {f: [g]}\n"),
             d("duplicate-key", "a: 1\na: 2\n"),
+            d("anchor-then-type-error", "k: &x val\nj: [1]\n"),
         ],
         Target::En => vec![
             d("valid-a", "U\n"),
@@ -471,6 +491,7 @@ pub fn kinds_for(target: Target) -> Vec<DocSpec> {
             d("type-early", "Nope: 1\n"),
             d("type-late", "S: {a: 1, b: [x]}\n"),
             d("surplus", "T: [1, one, extra]\n"),
+            d("anchor-then-type-error", "T: [&x 5, [not, a, string]]\n"),
         ],
         _ => vec![
             d("valid-a", "a: 1\n"),
@@ -480,6 +501,7 @@ pub fn kinds_for(target: Target) -> Vec<DocSpec> {
             DocSpec { alias_of_earlier: true, ..d("alias-earlier", "r: *x\n") },
             d("duplicate-key", "a: 1\na: 2\n"),
             d("recursive-alias", "a: &r [*r]\n"),
+            d("anchor-then-duplicate-key", "p: &x [1]\nq: 1\nq: 2\n"),
         ],
     };
     v.extend(specific);
@@ -565,9 +587,11 @@ pub fn gen_case(tier: Tier, seed: u64, idx: u64) -> Case {
     let exhaustive = idx < ex;
     for d in docs.iter_mut() {
         if !d.text.is_empty() {
-            d.end_marker = rng.chance(1, if exhaustive { 5 } else { 3 });
+            d.end_marker = rng.chance(1, if exhaustive { 4 } else { 3 });
             d.comment = rng.chance(1, if exhaustive { 6 } else { 4 });
         }
+        // after `...` the next document may begin without `---`
+        d.implicit_start = rng.chance(1, 2);
     }
     // an alias of an earlier document's anchor only means something if an earlier document defines x
     let start_marker = rng.chance(1, 3);
@@ -614,6 +638,11 @@ pub fn shrink(c: &StreamCase) -> Vec<Case> {
         if c.docs[i].comment {
             let mut n = c.clone();
             n.docs[i].comment = false;
+            out.push(Case::C11(n));
+        }
+        if c.docs[i].implicit_start {
+            let mut n = c.clone();
+            n.docs[i].implicit_start = false;
             out.push(Case::C11(n));
         }
         // shrink the text of a document by lines
